@@ -836,6 +836,22 @@ def run_pure(ctx, case):
     if diff > TOL:
         ctx.fail("determinism:" + key[5:], f"{spec.name}: two builds from the same input differ by {diff:.3e}", case)
         return
+    if hasattr(gate, "_define"):
+        # a second build of the definition on the SAME object (what qiskit does when the cached definition is dropped):
+        # state kept on the object between builds must not change the gate (seeded change C06i)
+        first = gate.definition
+        try:
+            gate._define()
+            diff = same_operator(first, gate.definition)
+        except Exception as e:
+            ctx.fail("rebuild:" + key[5:], f"{spec.name}: the second _define() on the same object raised "
+                     f"{type(e).__name__}: {str(e)[:200]}", case)
+            return
+        ctx.count("rebuild-same-object:" + spec.name)
+        if diff > TOL:
+            ctx.fail("rebuild:" + key[5:], f"{spec.name}: the second build of the definition on the same object differs "
+                     f"from the first by {diff:.3e}", case)
+            return
     ctx.ok(key, nontrivial=gate.num_qubits >= 2, sample={"pure": spec.name, "p": case["p"]})
     ctx.count("pure:" + spec.name)
 
